@@ -82,7 +82,7 @@ def wrap_line(rnd, cmd, k):
 class C09(Monitor):
     prop = "C09"
     quick_cases = 700
-    rule = ("command sequences after G28 over {G0-G3, G10, G11, G20, G21, G28, G90, G91, G92, M206, configured extended codes, unknown "
+    rule = ("(a) structured programs of the end-to-end generator with every feature on, (b) command sequences after G28 over {G0-G3, G10, G11, G20, G21, G28, G90, G91, G92, M206, configured extended codes, unknown "
             "G/M/T, sub-codes, lower case} with 0-7 words from X Y Z E F I J R S P L T in spellings {missing value, bare sign, +, "
             "-0, .5, 5., leading zeros, 1e-12..1e15 in plain decimal, repeated letters}, 0-3 regions, random settings, DEBUG logging on "
             "for a third of the cases; both entry points (handleGcode, StreamProcessor.process_line with comments, N-numbers, "
@@ -94,6 +94,20 @@ class C09(Monitor):
 
 
     def gen_case(self, rnd, tier, k):
+        if rnd.random() < 0.35:
+            # structured programs (matched retract cycles, retract-on-move, firmware retraction, @-commands, arcs, unit and mode
+            # switches): they reach automaton states pure fuzzing rarely composes
+            from .motion import mk
+            from ..gen import gen_program
+            feats = mk(rel=True, inch=rnd.random() < 0.5, arcs=True, arcs_rel=True, at=True, retmove=True, fw=rnd.random() < 0.4,
+                       g92e_retracted=True, spell=True, p_inside=0.5, g28mid=True)
+            if feats["fw"]:
+                feats["fwparam"] = rnd.choice(["", "S1"])
+                feats["fwnospace"] = rnd.random() < 0.3
+            settings = dict(g90e=rnd.random() < 0.5, ext=dict(DEFAULT_EXT), debug=rnd.random() < 0.33,
+                            enter=rnd.choice([None, ["M117 in"]]), exit=rnd.choice([None, ["M117 out"]]))
+            regs, g = gen_program(rnd, feats, settings, nsteps=rnd.randint(20, 90))
+            return dict(entry="structured", settings=settings, regions=regs, cmds=None, lines=None, steps=g.steps)
         n = rnd.randint(10, 80 if tier == "quick" else 300)
         cmds = ["G28"] + [fuzz_command(rnd) for _ in range(n)]
         regs = gen_regions(rnd, rnd.choice([0, 1, 2, 3]))
@@ -119,7 +133,34 @@ class C09(Monitor):
         core = Core(case["regions"], case["settings"])
         opened = generated = False
         stats["entry:" + case["entry"]] += 1
-        if case["entry"] == "handle":
+        if case["entry"] == "structured":
+            for i, st in enumerate(case["steps"]):
+                try:
+                    if st[0] == "g":
+                        code, sub, _ = tokenize(st[1])
+                        res = core.handlers.handleGcode(st[1], "T" if code[0] == "T" else code, sub)
+                        stats["c09_commands"] += 1
+                        ok = (res is None) or (isinstance(res, tuple) and res == (None,)) or \
+                             (isinstance(res, list) and len(res) > 0 and all(isinstance(x, str) and x for x in res))
+                        if not ok:
+                            v.append(dict(kind="result-shape", idx=i, cmd=st[1], detail="handleGcode returned %r" % (res,), mechanism=None))
+                            break
+                        if isinstance(res, list) and any(x != st[1] for x in res):
+                            generated = True
+                    elif st[0] == "at":
+                        core.handlers.handleAtCommand(core.comm, st[1], st[2])
+                        sent = core.comm.take()
+                        if not all(isinstance(x, str) and x for x in sent):
+                            v.append(dict(kind="result-shape", idx=i, cmd=repr(st), detail="sendCommand received %r" % (sent,), mechanism=None))
+                            break
+                    elif st[0] == "region":
+                        core.add_region(tuple(st[1]))
+                except Exception as exc:  # noqa: B902
+                    v.append(dict(kind="exception", idx=i, cmd=repr(st), detail="%s: %s" % (type(exc).__name__, exc), mechanism=None))
+                    break
+                if core.state.excluding:
+                    opened = True
+        elif case["entry"] == "handle":
             for i, cmd in enumerate(case["cmds"]):
                 code, sub, _ = tokenize(cmd)
                 if code is None:
@@ -165,7 +206,7 @@ class C09(Monitor):
         if opened:
             stats["sequences_with_episode"] += 1
         return dict(violations=v, nontrivial=opened and generated and not v, stats=stats, sets={},
-                    sample=dict(entry=case["entry"], first=(case["lines"] or case["cmds"])[:12]))
+                    sample=dict(entry=case["entry"], first=(case["lines"] or case["cmds"] or case.get("steps"))[:12]))
 
     def thresholds(self, tier):
         return {"c09_commands": 10000, "c09_lines": 10000, "sequences_with_episode": 100}
